@@ -1071,8 +1071,10 @@ def req_C12(r, tier):
     """public-API requests that select individual table entries / constants"""
     out = []
     step = 1 if tier != QUICK else 3
-    for v in single_digit_scalars()[::step]:
+    # one request per radix-16 table entry (all 32 x 8 entries, both signs via recentring), never subsampled
+    for v in single_digit_scalars():
         out.append(("ed.mul_base_raw:single_digit", "ed.mul_base_raw " + H(v)))
+    for v in single_digit_scalars()[::step]:
         if v < L:
             out.append(("ed.basepoint_table:single_digit", "ed.basepoint_table " + H(v)))
             out.append(("ris.table:single_digit", "ris.table " + H(v)))
